@@ -4,12 +4,14 @@ import I18nVerif.Proofs.Perm
 
 Model: `AMap` (`BTreeMap` as a sorted association list, `Model/Value.lean`) and the `LocaleSeed`
 loop of `Decode.value` (`Model/Decode.lean`, `locale.rs:721-775`): the entries of a JSON/YAML object
-are inserted into a `BTreeMap` in document order, a later equal key replacing an earlier one.
+are inserted into a `BTreeMap` in document order; a key equal (after trimming) to an earlier one is an error.
 
-Proved for all lists of entries, all keys, all values: if the keys (after `Key::new` trimmed them) are
-pairwise distinct, any reordering of the entries of an object gives the same `Locale`.
-The hypothesis cannot be dropped: `"a"` and `"a "` are different JSON keys that collide after
-trimming, the later one wins (finding F13) — `C10_duplicate_key_order_dependent`.
+Proved for all lists of entries, all keys, all values: if an object decodes, any reordering of its
+entries decodes to the same `Locale` — no hypothesis on the keys is needed, because since the repair of
+finding F13 a key that is already present after `Key::new` trimmed it (`"a"` and `"a "`) is rejected
+with a `DuplicateKey` error in either order (`C10_ok_keys_distinct`, `C10_duplicate_key_rejected*`).
+`C10_duplicate_key_order_dependent` keeps the witness of the old behaviour (a plain `insert`, the later
+key silently winning) at the level of the map.
 Run-to-run determinism holds by construction: the model is a pure function.
 -/
 namespace I18nVerif
@@ -54,27 +56,52 @@ theorem C10_sorted_ext {α} (m₁ m₂ : List (Str × α)) (h₁ : AMap.Sorted m
   AMap.sorted_ext h₁ h₂ h
 
 /-- **Entries are decoded independently of their position**: when the loop over the entries of an
-object succeeds, its result is the fold of `insert'` over the entries, each decoded on its own by
-`Decode.entry` (trimmed key ↦ `Decode.value` of the value) — no entry's value depends on the
-accumulator or on the entries before it -/
+object succeeds, every entry decodes on its own (`Decode.entry`: trimmed key ↦ `Decode.value` of the
+value — it depends neither on the accumulator nor on the entries before it), the trimmed keys are
+pairwise distinct and new to the accumulator, and the result is the fold of `insert'` over the entries -/
 theorem C10_locale_keys_fold (fuel : Nat) (top : Str) (l : List (Str × J)) (acc r : List (Str × PV))
     (h : Decode.value.localeKeys fuel top l acc = .ok r) :
     (∀ p, p ∈ l → (Decode.entry fuel top p).isSome) ∧
+    ((l.filterMap (Decode.entry fuel top)).map Prod.fst).Nodup ∧
+    (∀ k, k ∈ (l.filterMap (Decode.entry fuel top)).map Prod.fst → k ∉ acc.map Prod.fst) ∧
     r = AMap.insAll acc (l.filterMap (Decode.entry fuel top)) := by
-  have h1 := Decode.localeKeys_ok_inv fuel top l acc r h
-  refine ⟨h1, ?_⟩
-  have h2 := Decode.localeKeys_ok fuel top l acc h1
-  rw [h2] at h
+  have ⟨h1, h2, h3⟩ := Decode.localeKeys_ok_inv fuel top l acc r h
+  refine ⟨h1, h2, h3, ?_⟩
+  have h4 := Decode.localeKeys_ok fuel top l acc h1 h2 h3
+  rw [h4] at h
   simp only [Res.ok.injEq] at h
   exact h.symm
 
-/-- **Reordering the keys of an object changes nothing** (success case): if an object whose
-trimmed keys are pairwise distinct decodes to a value, every permutation of its entries decodes to
-the same value.  (When some key is invalid or some value fails to decode, *which* error is
-reported may depend on the order — the first failing entry in document order wins; that both
-orders fail is `C10_locale_keys_perm_fails`.) -/
+/-- the loop succeeds exactly when every entry decodes and the trimmed keys are pairwise distinct
+(starting from the empty map) -/
+theorem C10_locale_keys_ok_iff (fuel : Nat) (top : Str) (l : List (Str × J)) :
+    (∃ r, Decode.value.localeKeys fuel top l [] = .ok r) ↔
+    (∀ p, p ∈ l → (Decode.entry fuel top p).isSome) ∧ (l.map (fun p => trim p.1)).Nodup := by
+  constructor
+  · rintro ⟨r, h⟩
+    have ⟨h1, h2, _⟩ := Decode.localeKeys_ok_inv fuel top l [] r h
+    exact ⟨h1, by rw [← Decode.entries_keys fuel top l h1]; exact h2⟩
+  · rintro ⟨h1, h2⟩
+    exact ⟨_, Decode.localeKeys_ok fuel top l [] h1
+      (by rw [Decode.entries_keys fuel top l h1]; exact h2) (by simp)⟩
+
+/-- **Success implies distinct keys**: if an object decodes, its keys are pairwise distinct after
+trimming (F13 repaired: a second occurrence is an error, not a silent overwrite) -/
+theorem C10_ok_keys_distinct (fuel : Nat) (top key : Str) (l : List (Str × J)) (v : PV)
+    (h : Decode.value (fuel + 1) top false key (.obj l) = .ok v) :
+    (l.map (fun p => trim p.1)).Nodup := by
+  simp only [Decode.value, Bool.false_eq_true, if_false] at h
+  cases hl : Decode.value.localeKeys fuel top l [] with
+  | err e => rw [hl] at h; simp at h
+  | panic q => rw [hl] at h; simp at h
+  | ok keys => exact ((C10_locale_keys_ok_iff fuel top l).mp ⟨keys, hl⟩).2
+
+/-- **Reordering the keys of an object changes nothing**: if an object decodes to a value, every
+permutation of its entries decodes to the same value — no hypothesis on the keys.
+(When decoding fails, *which* error is reported may depend on the order — the first failing entry
+in document order wins; that both orders fail is `C10_locale_keys_perm_fails`.) -/
 theorem C10_locale_keys_perm (fuel : Nat) (top key : Str) (l₁ l₂ : List (Str × J)) (v : PV)
-    (hp : l₁.Perm l₂) (hn : (l₁.map (fun p => trim p.1)).Nodup)
+    (hp : l₁.Perm l₂)
     (h : Decode.value (fuel + 1) top false key (.obj l₁) = .ok v) :
     Decode.value (fuel + 1) top false key (.obj l₂) = .ok v := by
   simp only [Decode.value, Bool.false_eq_true, if_false] at h ⊢
@@ -82,51 +109,71 @@ theorem C10_locale_keys_perm (fuel : Nat) (top key : Str) (l₁ l₂ : List (Str
   | err e => rw [hl] at h; simp at h
   | panic q => rw [hl] at h; simp at h
   | ok keys =>
-    have ⟨hall, hk⟩ := C10_locale_keys_fold fuel top l₁ [] keys hl
+    have ⟨hall, hn, _, hk⟩ := C10_locale_keys_fold fuel top l₁ [] keys hl
     have hall₂ : ∀ p, p ∈ l₂ → (Decode.entry fuel top p).isSome := fun p hp' => hall p (hp.mem_iff.mpr hp')
-    have hn' : ((l₁.filterMap (Decode.entry fuel top)).map Prod.fst).Nodup := by
-      rw [Decode.entries_keys fuel top l₁ hall]; exact hn
-    have := AMap.insAll_perm (m := []) (by simp [AMap.Sorted]) (hp.filterMap (Decode.entry fuel top)) hn'
-    rw [Decode.localeKeys_ok fuel top l₂ [] hall₂, ← this, ← hk]
+    have hpe := hp.filterMap (Decode.entry fuel top)
+    have hn₂ : ((l₂.filterMap (Decode.entry fuel top)).map Prod.fst).Nodup :=
+      (hpe.map Prod.fst).nodup_iff.mp hn
+    have := AMap.insAll_perm (m := []) (by simp [AMap.Sorted]) hpe hn
+    rw [Decode.localeKeys_ok fuel top l₂ [] hall₂ hn₂ (by simp), ← this, ← hk]
     rw [hl] at h
     exact h
 
 /-- if decoding an object fails, decoding any permutation of it fails too (possibly with another
 error kind) -/
 theorem C10_locale_keys_perm_fails (fuel : Nat) (top key : Str) (l₁ l₂ : List (Str × J))
-    (hp : l₁.Perm l₂) (hn : (l₁.map (fun p => trim p.1)).Nodup)
+    (hp : l₁.Perm l₂)
     (h : ∀ v, Decode.value (fuel + 1) top false key (.obj l₁) ≠ .ok v) :
-    ∀ v, Decode.value (fuel + 1) top false key (.obj l₂) ≠ .ok v := by
-  intro v hv
-  have hn₂ : (l₂.map (fun p => trim p.1)).Nodup := (hp.map _).nodup_iff.mp hn
-  exact h v (C10_locale_keys_perm fuel top key l₂ l₁ v hp.symm hn₂ hv)
+    ∀ v, Decode.value (fuel + 1) top false key (.obj l₂) ≠ .ok v :=
+  fun v hv => h v (C10_locale_keys_perm fuel top key l₂ l₁ v hp.symm hv)
 
-/-! ### Non-vacuity, and why `Nodup` is needed (finding F13) -/
+/-- **Duplicate keys are rejected, whatever the order**: an object in which two entries have the
+same key after trimming never decodes to a value -/
+theorem C10_duplicate_key_rejected (fuel : Nat) (top key : Str) (l : List (Str × J))
+    (hdup : ¬ (l.map (fun p => trim p.1)).Nodup) :
+    ∀ v, Decode.value (fuel + 1) top false key (.obj l) ≠ .ok v :=
+  fun v hv => hdup (C10_ok_keys_distinct fuel top key l v hv)
+
+/-- the two-entry case with the exact error: two keys that `Key::new` maps to the same name
+(`"a"` and `"a "`), both values decodable, give `DuplicateKey`.  The statement is symmetric in the
+two entries, so it covers both orders. -/
+theorem C10_duplicate_key_rejected_pair (fuel : Nat) (top key k₁ k₂ k : Str) (x₁ x₂ : J) (v₁ v₂ : PV)
+    (hk₁ : Key.new k₁ = some k) (hk₂ : Key.new k₂ = some k)
+    (hv₁ : Decode.value fuel top false k x₁ = .ok v₁) (hv₂ : Decode.value fuel top false k x₂ = .ok v₂) :
+    Decode.value (fuel + 1) top false key (.obj [(k₁, x₁), (k₂, x₂)]) = .err "DuplicateKey" ∧
+    Decode.value (fuel + 1) top false key (.obj [(k₂, x₂), (k₁, x₁)]) = .err "DuplicateKey" := by
+  have hc : ∀ v : PV, AMap.contains k (AMap.insert' k v []) = true := by
+    intro v; simp [AMap.contains, AMap.get?, AMap.insert', AMap.insert]
+  have hc0 : AMap.contains k ([] : List (Str × PV)) = false := rfl
+  constructor <;>
+    simp [Decode.value, Decode.value.localeKeys, hk₁, hk₂, hv₁, hv₂, hc, hc0]
+
+/-! ### Non-vacuity and regression witnesses (finding F13) -/
 
 example : AMap.ofList [("b".toList, 1), ("a".toList, 2), ("c".toList, 3)]
     = AMap.ofList [("c".toList, 3), ("b".toList, 1), ("a".toList, 2)] := by decide
 
 example : (["b".toList, "a".toList, "c".toList] : List Str).Nodup := by decide
 
-/-- **F13**: `"a"` and `"a "` are distinct keys of the file that are equal after trimming; the one
-that comes later in the file wins, so the result depends on the order -/
+/-- **Witness of the OLD behaviour (F13, repaired)**: at the level of the map, `insert'` overwrites, so
+inserting the colliding keys `"a"` and `"a "` in the two orders gives different maps.  This is what
+`LocaleSeed::visit_map` did before the repair and the reason `C10_amap_perm` needs `Nodup`; the decoder
+now refuses such input (`C10_duplicate_key_rejected`). -/
 theorem C10_duplicate_key_order_dependent :
     AMap.ofList [(trim "a".toList, 1), (trim "a ".toList, 2)] = [("a".toList, 2)] ∧
     AMap.ofList [(trim "a ".toList, 2), (trim "a".toList, 1)] = [("a".toList, 1)] := by decide
 
-/-- the same at the level of the decoder: the object `{"a": true, "a ": false}` and its
-reordering `{"a ": false, "a": true}` decode to different locales -/
-theorem C10_duplicate_key_order_dependent_decode :
+/-- F13 after the repair: `{"a": true, "a ": false}` is a `DuplicateKey` error in either order -/
+example :
     Decode.value 2 [] false [] (.obj [("a".toList, .bool true), ("a ".toList, .bool false)])
-      = .ok (.subkeys (some (.mk [] [] [("a".toList, .lit (.bool false))] [] 0))) ∧
+      = .err "DuplicateKey" ∧
     Decode.value 2 [] false [] (.obj [("a ".toList, .bool false), ("a".toList, .bool true)])
-      = .ok (.subkeys (some (.mk [] [] [("a".toList, .lit (.bool true))] [] 0))) := by
-  have k1 : Key.new "a".toList = some "a".toList := by decide
-  have k2 : Key.new "a ".toList = some "a".toList := by decide
-  simp only [Decode.value, Decode.value.localeKeys, k1, k2, Bool.false_eq_true, if_false]
-  constructor <;> rfl
+      = .err "DuplicateKey" :=
+  C10_duplicate_key_rejected_pair 1 [] [] "a".toList "a ".toList "a".toList (.bool true) (.bool false)
+    (.lit (.bool true)) (.lit (.bool false)) (by decide) (by decide)
+    (by simp [Decode.value]) (by simp [Decode.value])
 
-/-- `C10_locale_keys_perm` applied: distinct keys, two orders, one result -/
+/-- `C10_locale_keys_perm` on a concrete object: distinct keys, two orders, one result -/
 example : Decode.value 2 [] false [] (.obj [("b".toList, .bool true), ("a".toList, .null)])
     = Decode.value 2 [] false [] (.obj [("a".toList, .null), ("b".toList, .bool true)]) := by
   have k1 : Key.new "a".toList = some "a".toList := by decide
